@@ -14,14 +14,20 @@ Proof.
   destruct q as [|[p t] q]; cbn; split; try reflexivity. intros H. contradiction.
 Qed.
 
+Lemma adv_peek st n : peek st 0 <> TEof -> peek (snd (advance_with_pos st)) n = peek st (S n).
+Proof.
+  unfold advance_with_pos, peek. destruct st as [q o]. cbn [pq poff].
+  destruct q as [|[p t] q]; cbn; [intros H; contradiction|reflexivity].
+Qed.
+
 (** destruct the [advance] at the head of hypothesis [H]; the token becomes [peek st 0] *)
 Ltac adv_in H :=
   match type of H with
   | context [advance_with_pos ?st] =>
       let Ha := fresh "Ha" in let Hb := fresh "Hb" in
-      let o := fresh "o" in let t := fresh "tk" in let st1 := fresh "p" in
-      destruct (adv_toks st) as (Ha & Hb);
-      destruct (advance_with_pos st) as [[o t] st1]; cbn [fst snd] in Ha, Hb; subst t
+      let o := fresh "o" in let t := fresh "tk" in let st1 := fresh "p" in let Hc := fresh "Hc" in
+      destruct (adv_toks st) as (Ha & Hb); pose proof (adv_peek st) as Hc;
+      destruct (advance_with_pos st) as [[o t] st1]; cbn [fst snd] in Ha, Hb, Hc; subst t
   end.
 
 Ltac listeq := cbn [flat flatk app]; repeat (rewrite <- app_assoc; cbn [app]); reflexivity.
@@ -126,38 +132,56 @@ Section Sound.
   Notation parse_multi_list' := (parse_multi_list L STOP true).
   Notation parse_list' := (parse_list L STOP true).
 
-  Definition P_expr f := forall rbp st t st', expr' f rbp st = Ok (t, st') -> exists c, toks st = flat c ++ toks st' /\ erase c = t.
-  Definition P_loop f := forall rbp lft st t st' cl, erase cl = lft -> expr_loop' f rbp lft st = Ok (t, st') ->
-    exists c w, toks st = w ++ toks st' /\ flat c = flat cl ++ w /\ erase c = t.
-  Definition P_nud f := forall st t st', nud' f st = Ok (t, st') -> exists c, toks st = flat c ++ toks st' /\ erase c = t.
+  Definition dot_start (t : token) : bool :=
+    match t with TIdentifier _ | TQuotedIdentifier _ | TStar | TLbrace => true | _ => false end.
+  Definition brk_start (st : pst) : bool :=
+    match peek st 0 with
+    | TFilter => true
+    | TLbracket => match peek st 1 with TNumber _ | TColon => true | TStar => tok_is_rbracket (peek st 2) | _ => false end
+    | _ => false
+    end.
+  (** the leftmost constituent is of the category its first token(s) announce *)
+  Definition start_ok (st : pst) (c : cst) : Prop :=
+    (dot_start (peek st 0) = true -> dot_ok (head c) = true) /\ (brk_start st = true -> brk_ok (head c) = true).
+
+  Definition P_expr f := forall rbp st t st', expr' f rbp st = Ok (t, st') ->
+    exists c, toks st = flat c ++ toks st' /\ erase c = t /\ wf c /\ start_ok st c.
+  Definition P_loop f := forall rbp lft st t st' cl, erase cl = lft -> wf cl -> expr_loop' f rbp lft st = Ok (t, st') ->
+    exists c w, toks st = w ++ toks st' /\ flat c = flat cl ++ w /\ erase c = t /\ wf c /\ head c = head cl.
+  Definition P_nud f := forall st t st', nud' f st = Ok (t, st') ->
+    exists c, toks st = flat c ++ toks st' /\ erase c = t /\ wf c /\ start_ok st c.
   Definition P_kvps f := forall acc st t st', parse_kvps' f acc st = Ok (t, st') ->
-    exists items, items <> [] /\ toks st = hash_items items ++ toks st' /\ t = AMultiHash (rev acc ++ map erase_kv items).
+    exists items, items <> [] /\ toks st = hash_items items ++ toks st' /\ t = AMultiHash (rev acc ++ map erase_kv items) /\
+                  Forall (fun kv : bool * str * cst => wf (snd kv)) items.
   Definition P_kvp f := forall st k e st', parse_kvp' f st = Ok ((k, e), st') ->
-    exists q x, toks st = key_tok q k :: TColon :: flat x ++ toks st' /\ erase x = e.
-  Definition P_led f := forall lft st t st' cl, erase cl = lft -> led' f lft st = Ok (t, st') ->
-    exists c w, toks st = w ++ toks st' /\ flat c = flat cl ++ w /\ erase c = t.
+    exists q x, toks st = key_tok q k :: TColon :: flat x ++ toks st' /\ erase x = e /\ wf x.
+  Definition P_led f := forall lft st t st' cl, erase cl = lft -> wf cl -> led' f lft st = Ok (t, st') ->
+    exists c w, toks st = w ++ toks st' /\ flat c = flat cl ++ w /\ erase c = t /\ wf c /\ head c = head cl.
   Definition P_filter f := forall lhs st t st', parse_filter' f lhs st = Ok (t, st') ->
-    exists p k, toks st = flat p ++ TRbracket :: flatk k ++ toks st' /\ t = AProjection lhs (ACondition (erase p) (erasek k)).
+    exists p k, toks st = flat p ++ TRbracket :: flatk k ++ toks st' /\ t = AProjection lhs (ACondition (erase p) (erasek k)) /\ wf p /\ wfk k.
   Definition P_flatten f := forall lhs st t st', parse_flatten' f lhs st = Ok (t, st') ->
-    exists k, toks st = flatk k ++ toks st' /\ t = AProjection (AFlatten lhs) (erasek k).
+    exists k, toks st = flatk k ++ toks st' /\ t = AProjection (AFlatten lhs) (erasek k) /\ wfk k.
   Definition P_cmp f := forall c lhs st t st', parse_comparator' f c lhs st = Ok (t, st') ->
-    exists r, toks st = flat r ++ toks st' /\ t = AComparison c lhs (erase r).
-  Definition P_dot f := forall bp st t st', parse_dot' f bp st = Ok (t, st') -> exists d, toks st = flat d ++ toks st' /\ erase d = t.
-  Definition P_prhs f := forall bp st t st', projection_rhs' f bp st = Ok (t, st') -> exists k, toks st = flatk k ++ toks st' /\ erasek k = t.
+    exists r, toks st = flat r ++ toks st' /\ t = AComparison c lhs (erase r) /\ wf r.
+  Definition P_dot f := forall bp st t st', parse_dot' f bp st = Ok (t, st') ->
+    exists d, toks st = flat d ++ toks st' /\ erase d = t /\ wf d /\ dot_ok (head d) = true.
+  Definition P_prhs f := forall bp st t st', projection_rhs' f bp st = Ok (t, st') ->
+    exists k, toks st = flatk k ++ toks st' /\ erasek k = t /\ wfk k.
   Definition P_wi f := forall lhs st t st', parse_wildcard_index' f lhs st = Ok (t, st') ->
-    exists k, toks st = TRbracket :: flatk k ++ toks st' /\ t = AProjection lhs (erasek k).
+    exists k, toks st = TRbracket :: flatk k ++ toks st' /\ t = AProjection lhs (erasek k) /\ wfk k.
   Definition P_wv f := forall lhs st t st', parse_wildcard_values' f lhs st = Ok (t, st') ->
-    exists k, toks st = flatk k ++ toks st' /\ t = AProjection (AObjectValues lhs) (erasek k).
+    exists k, toks st = flatk k ++ toks st' /\ t = AProjection (AObjectValues lhs) (erasek k) /\ wfk k.
   Definition P_index f := forall st t st', parse_index' f st = Ok (t, st') ->
     (exists n, toks st = TNumber n :: TRbracket :: toks st' /\ t = AIndex n) \/
-    (exists off sl k, toks st = slice_toks sl ++ TRbracket :: flatk k ++ toks st' /\ t = AProjection (slice_ast off sl) (erasek k)).
+    (exists off sl k, toks st = slice_toks sl ++ TRbracket :: flatk k ++ toks st' /\ t = AProjection (slice_ast off sl) (erasek k) /\ wfk k).
   Definition P_mlist f := forall st t st', parse_multi_list' f st = Ok (t, st') ->
-    exists e es, toks st = flat e ++ mlist_tail es ++ toks st' /\ t = AMultiList (erase e :: map erase es).
+    exists e es, toks st = flat e ++ mlist_tail es ++ toks st' /\ t = AMultiList (erase e :: map erase es) /\ wf e /\ Forall wf es.
   Definition P_list f := forall c acc st l st', parse_list' f c acc st = Ok (l, st') ->
     exists items, toks st = glist c items ++ toks st' /\ l = rev acc ++ map erase_arg items /\
                   (c = CloseBracket -> Forall (fun a => fst a = false) items) /\
                   (is_closing c (peek st 0) = false -> items <> []) /\
-                  (is_closing c (peek st 0) = true -> items = []).
+                  (is_closing c (peek st 0) = true -> items = []) /\
+                  Forall (fun a : bool * cst => wf (snd a)) items.
 
   Definition all_sound f :=
     P_expr f /\ P_loop f /\ P_nud f /\ P_kvps f /\ P_kvp f /\ P_led f /\ P_filter f /\ P_flatten f /\ P_cmp f /\
@@ -178,53 +202,55 @@ Section Sound.
   Lemma sound_expr f : all_sound f -> P_expr (S f).
   Proof.
     intros (_ & Hloop & Hnud & _). intros rbp st t st' H. cbn [expr] in H. refold_in H.
-    run H l st1 En. apply Hnud in En as (cl & Hcl & Hel). apply (Hloop rbp l st1 t st' cl Hel) in H as (c & w & Hw & Hf & He).
-    exists c. split; [rewrite Hcl, Hw, Hf, app_assoc; reflexivity|exact He].
+    run H l st1 En. apply Hnud in En as (cl & Hcl & Hel & Hwl & Hsl).
+    apply (Hloop rbp l st1 t st' cl Hel Hwl) in H as (c & w & Hw & Hf & He & Hwc & Hh).
+    exists c. split; [rewrite Hcl, Hw, Hf, app_assoc; reflexivity|]. split; [exact He|]. split; [exact Hwc|].
+    unfold start_ok in *. rewrite Hh. exact Hsl.
   Qed.
 
   Lemma sound_loop f : all_sound f -> P_loop (S f).
   Proof.
-    intros (_ & Hloop & _ & _ & _ & Hled & _). intros rbp lft st t st' cl Hcl H. cbn [expr_loop] in H. refold_in H.
+    intros (_ & Hloop & _ & _ & _ & Hled & _). intros rbp lft st t st' cl Hcl Hwl H. cbn [expr_loop] in H. refold_in H.
     destruct (rbp <? L (peek st 0)).
-    - run H l2 st1 El. apply (Hled lft st l2 st1 cl Hcl) in El as (c1 & w1 & Hw1 & Hf1 & He1).
-      apply (Hloop rbp l2 st1 t st' c1 He1) in H as (c & w2 & Hw2 & Hf2 & He2).
-      exists c, (w1 ++ w2). split; [rewrite Hw1, Hw2, app_assoc; reflexivity|]. split; [rewrite Hf2, Hf1, app_assoc; reflexivity|exact He2].
-    - injection H as <- <-. exists cl, []. split; [reflexivity|]. split; [now rewrite app_nil_r|exact Hcl].
+    - run H l2 st1 El. apply (Hled lft st l2 st1 cl Hcl Hwl) in El as (c1 & w1 & Hw1 & Hf1 & He1 & Hwc1 & Hh1).
+      apply (Hloop rbp l2 st1 t st' c1 He1 Hwc1) in H as (c & w2 & Hw2 & Hf2 & He2 & Hwc2 & Hh2).
+      exists c, (w1 ++ w2). split; [rewrite Hw1, Hw2, app_assoc; reflexivity|]. split; [rewrite Hf2, Hf1, app_assoc; reflexivity|].
+      split; [exact He2|]. split; [exact Hwc2|]. now rewrite Hh2, Hh1.
+    - injection H as <- <-. exists cl, []. split; [reflexivity|]. split; [now rewrite app_nil_r|]. auto.
   Qed.
-
-  Ltac get H n := let x := fresh in pose proof H as x; unfold all_sound in x; decompose [and] x; clear x.
 
   Lemma sound_filter f : all_sound f -> P_filter (S f).
   Proof.
     intros (Hexpr & _ & _ & _ & _ & _ & _ & _ & _ & _ & Hprhs & _). intros lhs st t st' H. cbn [parse_filter] in H. refold_in H.
-    run H cond st1 Ee. apply Hexpr in Ee as (p & Hp & Hep). adv_in H. destruct (peek st1 0) eqn:Ep; dead. use_peek.
-    run H rhs st3 Er. apply Hprhs in Er as (k & Hk & Hek). injection H as <- <-.
-    exists p, k. split; [rewrite Hp, Ha, Hk; reflexivity|]. now rewrite Hep, Hek.
+    run H cond st1 Ee. apply Hexpr in Ee as (p & Hp & Hep & Hwp & _). adv_in H. destruct (peek st1 0) eqn:Ep; dead. use_peek.
+    run H rhs st3 Er. apply Hprhs in Er as (k & Hk & Hek & Hwk). injection H as <- <-.
+    exists p, k. split; [rewrite Hp, Ha, Hk; reflexivity|]. split; [now rewrite Hep, Hek|auto].
   Qed.
 
   Lemma sound_flatten f : all_sound f -> P_flatten (S f).
   Proof.
     intros (_ & _ & _ & _ & _ & _ & _ & _ & _ & _ & Hprhs & _). intros lhs st t st' H. cbn [parse_flatten] in H. refold_in H.
-    run H rhs st1 Er. apply Hprhs in Er as (k & Hk & Hek). injection H as <- <-. exists k. split; [exact Hk|now rewrite Hek].
+    run H rhs st1 Er. apply Hprhs in Er as (k & Hk & Hek & Hwk). injection H as <- <-. exists k. split; [exact Hk|]. split; [now rewrite Hek|exact Hwk].
   Qed.
 
   Lemma sound_cmp f : all_sound f -> P_cmp (S f).
   Proof.
     intros (Hexpr & _). intros c lhs st t st' H. cbn [parse_comparator] in H. refold_in H.
-    run H rhs st1 Er. apply Hexpr in Er as (r & Hr & Her). injection H as <- <-. exists r. split; [exact Hr|now rewrite Her].
+    run H rhs st1 Er. apply Hexpr in Er as (r & Hr & Her & Hwr & _). injection H as <- <-. exists r. split; [exact Hr|]. split; [now rewrite Her|exact Hwr].
   Qed.
 
   Lemma sound_wi f : all_sound f -> P_wi (S f).
   Proof.
     intros (_ & _ & _ & _ & _ & _ & _ & _ & _ & _ & Hprhs & _). intros lhs st t st' H. cbn [parse_wildcard_index] in H. refold_in H.
     adv_in H. destruct (peek st 0) eqn:Ep; dead. use_peek.
-    run H rhs st2 Er. apply Hprhs in Er as (k & Hk & Hek). injection H as <- <-. exists k. split; [rewrite Ha, Hk; reflexivity|now rewrite Hek].
+    run H rhs st2 Er. apply Hprhs in Er as (k & Hk & Hek & Hwk). injection H as <- <-. exists k.
+    split; [rewrite Ha, Hk; reflexivity|]. split; [now rewrite Hek|exact Hwk].
   Qed.
 
   Lemma sound_wv f : all_sound f -> P_wv (S f).
   Proof.
     intros (_ & _ & _ & _ & _ & _ & _ & _ & _ & _ & Hprhs & _). intros lhs st t st' H. cbn [parse_wildcard_values] in H. refold_in H.
-    run H rhs st1 Er. apply Hprhs in Er as (k & Hk & Hek). injection H as <- <-. exists k. split; [exact Hk|now rewrite Hek].
+    run H rhs st1 Er. apply Hprhs in Er as (k & Hk & Hek & Hwk). injection H as <- <-. exists k. split; [exact Hk|]. split; [now rewrite Hek|exact Hwk].
   Qed.
 
   Lemma sound_kvp f : all_sound f -> P_kvp (S f).
@@ -232,27 +258,29 @@ Section Sound.
     intros (Hexpr & _). intros st k e st' H. cbn [parse_kvp] in H. refold_in H.
     adv_in H. destruct (peek st 0) eqn:Ep; dead; use_peek.
     - destruct (tok_is_colon (peek p 0)) eqn:Ec; dead. adv_in H. use_peek.
-      run H e1 st3 Ee. apply Hexpr in Ee as (x & Hx & Hex). injection H as <- <- <-.
-      exists false, x. split; [rewrite Ha, Ha0, Hx; reflexivity|exact Hex].
+      run H e1 st3 Ee. apply Hexpr in Ee as (x & Hx & Hex & Hwx & _). injection H as <- <- <-.
+      exists false, x. split; [rewrite Ha, Ha0, Hx; reflexivity|]. auto.
     - destruct (tok_is_colon (peek p 0)) eqn:Ec; dead. adv_in H. use_peek.
-      run H e1 st3 Ee. apply Hexpr in Ee as (x & Hx & Hex). injection H as <- <- <-.
-      exists true, x. split; [rewrite Ha, Ha0, Hx; reflexivity|exact Hex].
+      run H e1 st3 Ee. apply Hexpr in Ee as (x & Hx & Hex & Hwx & _). injection H as <- <- <-.
+      exists true, x. split; [rewrite Ha, Ha0, Hx; reflexivity|]. auto.
   Qed.
 
   Lemma sound_kvps f : all_sound f -> P_kvps (S f).
   Proof.
     intros (_ & _ & _ & Hkvps & Hkvp & _). intros acc st t st' H. cbn [parse_kvps] in H. refold_in H.
-    run H kv st1 Ek. destruct kv as [k e]. apply Hkvp in Ek as (q & x & Hx & Hex). adv_in H.
+    run H kv st1 Ek. destruct kv as [k e]. apply Hkvp in Ek as (q & x & Hx & Hex & Hwx). adv_in H.
     destruct (peek st1 0) eqn:Ep; dead; use_peek.
     - (* comma *)
-      apply Hkvps in H as (items & Hne & Hi & Ht). destruct items as [|[[q2 k2] x2] r]; [contradiction|].
-      exists ((q, k, x) :: (q2, k2, x2) :: r). split; [discriminate|]. split.
+      apply Hkvps in H as (items & Hne & Hi & Ht & Hwi). destruct items as [|[[q2 k2] x2] r]; [contradiction|].
+      exists ((q, k, x) :: (q2, k2, x2) :: r). split; [discriminate|]. split; [|split].
       + rewrite Hx, Ha, Hi. cbn [hash_items mhash_tail]. listeq.
       + rewrite Ht. cbn [rev map]. rewrite <- app_assoc. cbn [app]. unfold erase_kv at 3. cbn [fst snd]. now rewrite Hex.
+      + constructor; [exact Hwx|exact Hwi].
     - (* closing brace *)
-      injection H as <- <-. exists [(q, k, x)]. split; [discriminate|]. split.
+      injection H as <- <-. exists [(q, k, x)]. split; [discriminate|]. split; [|split].
       + rewrite Hx, Ha. cbn [hash_items mhash_tail]. listeq.
       + cbn [rev map]. unfold erase_kv. cbn [fst snd]. now rewrite Hex.
+      + constructor; [exact Hwx|constructor].
   Qed.
 
   Lemma close_not_eof c : close_tok c <> TEof. Proof. destruct c; discriminate. Qed.
@@ -262,50 +290,56 @@ Section Sound.
     intros (Hexpr & _ & _ & _ & _ & _ & _ & _ & _ & _ & _ & _ & _ & _ & _ & Hlist). intros c acc st l st' H.
     cbn [parse_list] in H. refold_in H. destruct (is_closing c (peek st 0)) eqn:Ec.
     - adv_in H. injection H as <- <-. pose proof Ec as Ec'. apply is_closing_true in Ec'. rewrite Ec' in Ha. specialize (Ha (close_not_eof c)).
-      exists []. split; [rewrite Ha; reflexivity|]. split; [now rewrite app_nil_r|]. split; [intros _; constructor|]. split; [discriminate|reflexivity].
+      exists []. split; [rewrite Ha; reflexivity|]. split; [now rewrite app_nil_r|]. split; [intros _; constructor|]. split; [discriminate|]. split; [reflexivity|constructor].
     - run H e st1 Ee.
-      assert (Hel : exists a, toks st = flat_arg a ++ toks st1 /\ erase_arg a = e /\ (c = CloseBracket -> fst a = false)).
+      assert (Hel : exists a, toks st = flat_arg a ++ toks st1 /\ erase_arg a = e /\ (c = CloseBracket -> fst a = false) /\ wf (snd a)).
       { destruct c.
-        - apply Hexpr in Ee as (x & Hx & Hex). exists (false, x). unfold flat_arg, erase_arg. cbn [fst snd app]. auto.
+        - apply Hexpr in Ee as (x & Hx & Hex & Hwx & _). exists (false, x). unfold flat_arg, erase_arg. cbn [fst snd app]. auto.
         - destruct (peek st 0) eqn:Ep;
-            try (apply Hexpr in Ee as (x & Hx & Hex); exists (false, x); unfold flat_arg, erase_arg; cbn [fst snd app]; split; [exact Hx|split; [exact Hex|discriminate]]).
-          adv_in Ee. rewrite Ep in Ha. specialize (Ha ltac:(discriminate)). run Ee rhs st0 Er. apply Hexpr in Er as (x & Hx & Hex).
-          injection Ee as <- <-. exists (true, x). unfold flat_arg, erase_arg. cbn [fst snd]. split; [rewrite Ha, Hx; reflexivity|]. split; [now rewrite Hex|discriminate]. }
-      destruct Hel as (a & Hta & Hea & Hfa).
+            try (apply Hexpr in Ee as (x & Hx & Hex & Hwx & _); exists (false, x); unfold flat_arg, erase_arg; cbn [fst snd app];
+                 split; [exact Hx|split; [exact Hex|split; [discriminate|exact Hwx]]]).
+          adv_in Ee. rewrite Ep in Ha. specialize (Ha ltac:(discriminate)). run Ee rhs st0 Er. apply Hexpr in Er as (x & Hx & Hex & Hwx & _).
+          injection Ee as <- <-. exists (true, x). unfold flat_arg, erase_arg. cbn [fst snd]. split; [rewrite Ha, Hx; reflexivity|].
+          split; [now rewrite Hex|]. split; [discriminate|exact Hwx]. }
+      destruct Hel as (a & Hta & Hea & Hfa & Hwa).
       destruct (tok_is_comma (peek st1 0)) eqn:Ecm.
       + adv_in H. use_peek. destruct (is_closing c (peek p 0)) eqn:Ec2; dead.
-        apply Hlist in H as (items & Hi & Hl & Hf & Hne & _). specialize (Hne Ec2). destruct items as [|a2 r]; [contradiction|].
+        apply Hlist in H as (items & Hi & Hl & Hf & Hne & _ & Hwi). specialize (Hne Ec2). destruct items as [|a2 r]; [contradiction|].
         exists (a :: a2 :: r). split; [rewrite Hta, Ha, Hi; cbn [glist gtail]; listeq|].
         split; [rewrite Hl; cbn [rev map]; rewrite <- app_assoc; cbn [app]; now rewrite Hea|].
-        split; [intros E; constructor; [exact (Hfa E)|exact (Hf E)]|]. split; [discriminate|intros E; congruence].
+        split; [intros E; constructor; [exact (Hfa E)|exact (Hf E)]|]. split; [discriminate|]. split; [intros E; congruence|constructor; assumption].
       + destruct (is_closing c (peek st1 0)) eqn:Ec2; dead.
-        apply Hlist in H as (items & Hi & Hl & Hf & _ & Hnil). specialize (Hnil Ec2). subst items.
+        apply Hlist in H as (items & Hi & Hl & Hf & _ & Hnil & _). specialize (Hnil Ec2). subst items.
         exists [a]. split; [rewrite Hta, Hi; cbn [glist gtail]; listeq|].
         split; [rewrite Hl; cbn [rev map]; rewrite <- app_assoc; cbn [app]; now rewrite Hea|].
-        split; [intros E; constructor; [exact (Hfa E)|constructor]|]. split; [discriminate|intros E; congruence].
+        split; [intros E; constructor; [exact (Hfa E)|constructor]|]. split; [discriminate|]. split; [intros E; congruence|constructor; [exact Hwa|constructor]].
   Qed.
 
   Lemma sound_mlist f : all_sound f -> P_mlist (S f).
   Proof.
     intros (_ & _ & _ & _ & _ & _ & _ & _ & _ & _ & _ & _ & _ & _ & _ & Hlist). intros st t st' H.
     cbn [parse_multi_list] in H. refold_in H. destruct (tok_is_rbracket (peek st 0)) eqn:Er; dead.
-    run H es st1 El. injection H as <- <-. apply Hlist in El as (items & Hi & Hl & Hf & Hne & _).
+    run H es st1 El. injection H as <- <-. apply Hlist in El as (items & Hi & Hl & Hf & Hne & _ & Hwi).
     assert (Hnc : is_closing CloseBracket (peek st 0) = false) by exact Er. specialize (Hne Hnc). specialize (Hf eq_refl).
     destruct items as [|[b e] r]; [contradiction|]. pose proof (Forall_inv Hf) as Hb. pose proof (Forall_inv_tail Hf) as Hr. cbn [fst] in Hb. subst b.
     assert (Hmap : r = map (pair false) (map snd r)).
     { clear -Hr. induction Hr as [|[b x] r Hb Hr IH]; [reflexivity|]. cbn [fst] in Hb. subst b. cbn [map snd]. now rewrite <- IH. }
-    exists e, (map snd r). split.
+    exists e, (map snd r). split; [|split; [|split]].
     - rewrite Hi. cbn [glist]. unfold flat_arg at 1. cbn [fst snd app]. rewrite Hmap at 1. rewrite gtail_bracket. listeq.
     - rewrite Hl. cbn [rev app map]. unfold erase_arg at 1. cbn [fst snd]. f_equal. f_equal. rewrite Hmap at 1. rewrite !map_map. apply map_ext. reflexivity.
+    - exact (Forall_inv Hwi).
+    - apply Forall_map. exact (Forall_inv_tail Hwi).
   Qed.
 
   Lemma sound_dot f : all_sound f -> P_dot (S f).
   Proof.
     intros (Hexpr & Hloop & _ & _ & _ & _ & _ & _ & _ & _ & _ & _ & _ & _ & Hmlist & _). intros bp st t st' H.
-    cbn [parse_dot] in H. refold_in H. destruct (peek st 0) eqn:Ep; dead; try (apply Hexpr in H; exact H).
-    adv_in H. rewrite Ep in Ha. specialize (Ha ltac:(discriminate)). run H lst st2 Em. apply Hmlist in Em as (e & es & Hm & Hl).
-    apply (Hloop bp lst st2 t st' (CMList e es)) in H as (c & w & Hw & Hf & He); [|cbn [erase]; now rewrite Hl].
-    exists c. split; [|exact He]. rewrite Hf, flat_mlist, Ha, Hm, Hw. listeq.
+    cbn [parse_dot] in H. refold_in H.
+    destruct (peek st 0) eqn:Ep; dead;
+      try (apply Hexpr in H as (c & Hc & Hec & Hwc & Hs & _); exists c; split; [exact Hc|split; [exact Hec|split; [exact Hwc|apply Hs; rewrite Ep; reflexivity]]]).
+    adv_in H. rewrite Ep in Ha. specialize (Ha ltac:(discriminate)). run H lst st2 Em. apply Hmlist in Em as (e & es & Hm & Hl & Hwe & Hwes).
+    apply (Hloop bp lst st2 t st' (CMList e es)) in H as (c & w & Hw & Hf & He & Hwc & Hh); [|cbn [erase]; now rewrite Hl|apply wf_mlist; auto].
+    exists c. split; [rewrite Hf, flat_mlist, Ha, Hm, Hw; listeq|]. split; [exact He|]. split; [exact Hwc|]. rewrite Hh. reflexivity.
   Qed.
 
   Lemma sound_prhs f : all_sound f -> P_prhs (S f).
@@ -313,13 +347,15 @@ Section Sound.
     intros (Hexpr & _ & _ & _ & _ & _ & _ & _ & _ & Hdot & _). intros bp st t st' H.
     cbn [projection_rhs] in H. refold_in H.
     destruct (peek st 0) eqn:Ep;
-      try (destruct (L _ <? STOP); dead; injection H as <- <-; exists KNone; split; reflexivity).
-    - (* dot *) adv_in H. rewrite Ep in Ha. specialize (Ha ltac:(discriminate)). apply Hdot in H as (d & Hd & Hed).
-      exists (KDot d). split; [rewrite Ha, Hd; reflexivity|exact Hed].
-    - (* filter *) apply Hexpr in H as (x & Hx & Hex). exists (KExpr x). auto.
+      try (destruct (L _ <? STOP); dead; injection H as <- <-; exists KNone; split; [reflexivity|split; [reflexivity|exact I]]).
+    - (* dot *) adv_in H. rewrite Ep in Ha. specialize (Ha ltac:(discriminate)). apply Hdot in H as (d & Hd & Hed & Hwd & Hok).
+      exists (KDot d). split; [rewrite Ha, Hd; reflexivity|]. split; [exact Hed|]. split; assumption.
+    - (* filter *) apply Hexpr in H as (x & Hx & Hex & Hwx & _ & Hb). exists (KExpr x). split; [exact Hx|]. split; [exact Hex|]. split; [exact Hwx|].
+      apply Hb. unfold brk_start. now rewrite Ep.
     - (* bracket *)
-      destruct (peek st 1); dead; try (destruct (tok_is_rbracket (peek st 2)); dead);
-        apply Hexpr in H as (x & Hx & Hex); exists (KExpr x); auto.
+      destruct (peek st 1) eqn:Ep1; dead; try (destruct (tok_is_rbracket (peek st 2)) eqn:Er2; dead);
+        (apply Hexpr in H as (x & Hx & Hex & Hwx & _ & Hb); exists (KExpr x); split; [exact Hx|]; split; [exact Hex|]; split; [exact Hwx|];
+         apply Hb; unfold brk_start; rewrite Ep, Ep1; try exact Er2; reflexivity).
   Qed.
 
   Lemma sound_index f : all_sound f -> P_index (S f).
@@ -332,63 +368,73 @@ Section Sound.
     destruct (pos' =? 0) eqn:E0.
     - apply Z.eqb_eq in E0. subst pos'. destruct q0 as [i|]; dead. injection H as <- <-. left. exists i.
       split; [rewrite Hw; unfold fin; cbn [Z.eqb optnum app]; reflexivity|reflexivity].
-    - run H rhs st2 Er. apply Hprhs in Er as (k & Hk & Hek). injection H as <- <-. right.
+    - run H rhs st2 Er. apply Hprhs in Er as (k & Hk & Hek & Hwk). injection H as <- <-. right.
       destruct Hinv as [(-> & _)|[(-> & -> & _)|(-> & _)]]; [discriminate| |].
-      + exists (poff st1), (mkSl q0 q1 None), k. split.
+      + exists (poff st1), (mkSl q0 q1 None), k. split; [|split; [|exact Hwk]].
         * rewrite Hw, Hk. unfold fin, slice_toks. cbn [Z.eqb Pos.eqb sl_a sl_b sl_c]. rewrite app_nil_r. listeq.
         * unfold slice_ast. cbn [sl_a sl_b sl_c]. now rewrite Hek.
-      + exists (poff st1), (mkSl q0 q1 (Some q2)), k. split.
+      + exists (poff st1), (mkSl q0 q1 (Some q2)), k. split; [|split; [|exact Hwk]].
         * rewrite Hw, Hk. unfold fin, slice_toks. cbn [Z.eqb Pos.eqb sl_a sl_b sl_c]. listeq.
         * unfold slice_ast. cbn [sl_a sl_b sl_c]. rewrite Hek. destruct q2; reflexivity.
   Qed.
 
-  Ltac led_bin o H Ha Hcl Hexpr cl :=
+  Ltac led_bin o H Ha Hcl Hwl Hexpr cl :=
     let rhs := fresh "rhs" in let st2 := fresh "st2" in let Er := fresh "Er" in let r := fresh "r" in let Hr := fresh "Hr" in let Her := fresh "Her" in
-    run H rhs st2 Er; apply Hexpr in Er as (r & Hr & Her); injection H as <- <-;
-    exists (CBin o cl r), (binop_tok o :: flat r); split; [rewrite Ha, Hr; listeq|]; split; [reflexivity|]; cbn [erase bin_ast]; rewrite Hcl, Her; reflexivity.
-  Ltac led_cmp c0 H Ha Hcl Hcmp cl :=
-    let r := fresh "r" in let Hr := fresh "Hr" in let Ht := fresh "Ht" in
-    apply Hcmp in H as (r & Hr & Ht);
-    exists (CBin (BCmp c0) cl r), (binop_tok (BCmp c0) :: flat r); split; [rewrite Ha, Hr; listeq|]; split; [reflexivity|]; cbn [erase bin_ast]; rewrite Hcl, Ht; reflexivity.
+    let Hwr := fresh "Hwr" in
+    run H rhs st2 Er; apply Hexpr in Er as (r & Hr & Her & Hwr & _); injection H as <- <-;
+    exists (CBin o cl r), (binop_tok o :: flat r); split; [rewrite Ha, Hr; listeq|]; split; [reflexivity|];
+    split; [cbn [erase bin_ast]; rewrite Hcl, Her; reflexivity|]; split; [cbn [wf]; auto|reflexivity].
+  Ltac led_cmp c0 H Ha Hcl Hwl Hcmp cl :=
+    let r := fresh "r" in let Hr := fresh "Hr" in let Ht := fresh "Ht" in let Hwr := fresh "Hwr" in
+    apply Hcmp in H as (r & Hr & Ht & Hwr);
+    exists (CBin (BCmp c0) cl r), (binop_tok (BCmp c0) :: flat r); split; [rewrite Ha, Hr; listeq|]; split; [reflexivity|];
+    split; [cbn [erase bin_ast]; rewrite Hcl, Ht; reflexivity|]; split; [cbn [wf]; auto|reflexivity].
 
   Lemma sound_led f : all_sound f -> P_led (S f).
   Proof.
-    intros (Hexpr & _ & _ & _ & _ & _ & Hfilter & Hflatten & Hcmp & Hdot & _ & Hwi & Hwv & Hindex & _). intros lft st t st' cl Hcl H.
+    intros (Hexpr & _ & _ & _ & _ & _ & Hfilter & Hflatten & Hcmp & Hdot & _ & Hwi & Hwv & Hindex & _). intros lft st t st' cl Hcl Hwl H.
     cbn [led] in H. refold_in H. adv_in H. destruct (peek st 0) eqn:Ep; dead; specialize (Ha ltac:(discriminate)).
     all: try match type of Ep with
-             | _ = TOr => led_bin BOr H Ha Hcl Hexpr cl
-             | _ = TAnd => led_bin BAnd H Ha Hcl Hexpr cl
-             | _ = TPipe => led_bin BPipe H Ha Hcl Hexpr cl
-             | _ = TEq => led_cmp CEq H Ha Hcl Hcmp cl
-             | _ = TNe => led_cmp CNe H Ha Hcl Hcmp cl
-             | _ = TLt => led_cmp CLt H Ha Hcl Hcmp cl
-             | _ = TLte => led_cmp CLe H Ha Hcl Hcmp cl
-             | _ = TGt => led_cmp CGt H Ha Hcl Hcmp cl
-             | _ = TGte => led_cmp CGe H Ha Hcl Hcmp cl
+             | _ = TOr => led_bin BOr H Ha Hcl Hwl Hexpr cl
+             | _ = TAnd => led_bin BAnd H Ha Hcl Hwl Hexpr cl
+             | _ = TPipe => led_bin BPipe H Ha Hcl Hwl Hexpr cl
+             | _ = TEq => led_cmp CEq H Ha Hcl Hwl Hcmp cl
+             | _ = TNe => led_cmp CNe H Ha Hcl Hwl Hcmp cl
+             | _ = TLt => led_cmp CLt H Ha Hcl Hwl Hcmp cl
+             | _ = TLte => led_cmp CLe H Ha Hcl Hwl Hcmp cl
+             | _ = TGt => led_cmp CGt H Ha Hcl Hwl Hcmp cl
+             | _ = TGte => led_cmp CGe H Ha Hcl Hwl Hcmp cl
              end.
     - (* dot *)
       destruct (tok_is_star (peek p 0)) eqn:Es.
-      + adv_in H. use_peek. apply Hwv in H as (k & Hk & Ht). exists (CDotStar cl k), (TDot :: TStar :: flatk k).
-        split; [rewrite Ha, Ha0, Hk; listeq|]. split; [reflexivity|]. cbn [erase]. now rewrite Hcl, Ht.
-      + run H rhs st2 Ed. apply Hdot in Ed as (d & Hd & Hed). injection H as <- <-. exists (CDot cl d), (TDot :: flat d).
-        split; [rewrite Ha, Hd; listeq|]. split; [reflexivity|]. cbn [erase]. now rewrite Hcl, Hed.
+      + adv_in H. use_peek. apply Hwv in H as (k & Hk & Ht & Hwk). exists (CDotStar cl k), (TDot :: TStar :: flatk k).
+        split; [rewrite Ha, Ha0, Hk; listeq|]. split; [reflexivity|]. split; [cbn [erase]; now rewrite Hcl, Ht|]. split; [cbn [wf]; auto|reflexivity].
+      + run H rhs st2 Ed. apply Hdot in Ed as (d & Hd & Hed & Hwd & Hok). injection H as <- <-. exists (CDot cl d), (TDot :: flat d).
+        split; [rewrite Ha, Hd; listeq|]. split; [reflexivity|]. split; [cbn [erase]; now rewrite Hcl, Hed|]. split; [cbn [wf]; auto|reflexivity].
     - (* flatten *)
-      apply Hflatten in H as (k & Hk & Ht). exists (CFlatten cl k), (TFlatten :: flatk k).
-      split; [rewrite Ha, Hk; listeq|]. split; [reflexivity|]. cbn [erase]. now rewrite Hcl, Ht.
+      apply Hflatten in H as (k & Hk & Ht & Hwk). exists (CFlatten cl k), (TFlatten :: flatk k).
+      split; [rewrite Ha, Hk; listeq|]. split; [reflexivity|]. split; [cbn [erase]; now rewrite Hcl, Ht|]. split; [cbn [wf]; auto|reflexivity].
     - (* filter *)
-      apply Hfilter in H as (p0 & k & Hk & Ht). exists (CFilter cl p0 k), (TFilter :: flat p0 ++ TRbracket :: flatk k).
-      split; [rewrite Ha, Hk; listeq|]. split; [reflexivity|]. cbn [erase]. now rewrite Hcl, Ht.
+      apply Hfilter in H as (p0 & k & Hk & Ht & Hwp & Hwk). exists (CFilter cl p0 k), (TFilter :: flat p0 ++ TRbracket :: flatk k).
+      split; [rewrite Ha, Hk; listeq|]. split; [reflexivity|]. split; [cbn [erase]; now rewrite Hcl, Ht|]. split; [cbn [wf]; auto|reflexivity].
     - (* bracket *)
+      assert (Hix : forall idx st2, parse_index' f p = Ok (idx, st2) -> Ok (ASubexpr lft idx, st2) = Ok (t, st') ->
+                exists c w, toks st = w ++ toks st' /\ flat c = flat cl ++ w /\ erase c = t /\ wf c /\ head c = head cl).
+      { intros idx st2 Ei E. injection E as <- <-. apply Hindex in Ei as [(n0 & Hn & Ht)|(off & sl & k & Hs & Ht & Hwk)].
+        - exists (CIndex cl n0), [TLbracket; TNumber n0; TRbracket]. split; [rewrite Ha, Hn; listeq|]. split; [reflexivity|].
+          split; [cbn [erase]; now rewrite Hcl, Ht|]. split; [exact Hwl|reflexivity].
+        - exists (CSlice cl off sl k), (TLbracket :: slice_toks sl ++ TRbracket :: flatk k). split; [rewrite Ha, Hs; listeq|]. split; [reflexivity|].
+          split; [cbn [erase]; now rewrite Hcl, Ht|]. split; [cbn [wf]; auto|reflexivity]. }
       destruct (peek p 0) eqn:Ep1; dead.
-      + run H idx st2 Ei. injection H as <- <-. apply Hindex in Ei as [(n0 & Hn & Ht)|(off & sl & k & Hs & Ht)].
-        * exists (CIndex cl n0), [TLbracket; TNumber n0; TRbracket]. split; [rewrite Ha, Hn; listeq|]. split; [reflexivity|]. cbn [erase]. now rewrite Hcl, Ht.
-        * exists (CSlice cl off sl k), (TLbracket :: slice_toks sl ++ TRbracket :: flatk k). split; [rewrite Ha, Hs; listeq|]. split; [reflexivity|]. cbn [erase]. now rewrite Hcl, Ht.
-      + adv_in H. use_peek. apply Hwi in H as (k & Hk & Ht). exists (CWild cl k), (TLbracket :: TStar :: TRbracket :: flatk k).
-        split; [rewrite Ha, Ha0, Hk; listeq|]. split; [reflexivity|]. cbn [erase]. now rewrite Hcl, Ht.
-      + run H idx st2 Ei. injection H as <- <-. apply Hindex in Ei as [(n0 & Hn & Ht)|(off & sl & k & Hs & Ht)].
-        * exists (CIndex cl n0), [TLbracket; TNumber n0; TRbracket]. split; [rewrite Ha, Hn; listeq|]. split; [reflexivity|]. cbn [erase]. now rewrite Hcl, Ht.
-        * exists (CSlice cl off sl k), (TLbracket :: slice_toks sl ++ TRbracket :: flatk k). split; [rewrite Ha, Hs; listeq|]. split; [reflexivity|]. cbn [erase]. now rewrite Hcl, Ht.
+      + run H idx st2 Ei. exact (Hix _ _ eq_refl H).
+      + adv_in H. use_peek. apply Hwi in H as (k & Hk & Ht & Hwk). exists (CWild cl k), (TLbracket :: TStar :: TRbracket :: flatk k).
+        split; [rewrite Ha, Ha0, Hk; listeq|]. split; [reflexivity|]. split; [cbn [erase]; now rewrite Hcl, Ht|]. split; [cbn [wf]; auto|reflexivity].
+      + run H idx st2 Ei. exact (Hix _ _ eq_refl H).
   Qed.
+
+  (** [start_ok] for a constituent whose first token is neither a dot-operand start nor a bracket specifier start, or whose head is right anyway *)
+  Ltac start_tac Ep :=
+    unfold start_ok, brk_start; rewrite Ep; cbn [dot_start head dot_ok brk_ok]; split; intros Hs; try reflexivity; try discriminate Hs.
 
   Lemma sound_nud f : all_sound f -> P_nud (S f).
   Proof.
@@ -396,41 +442,53 @@ Section Sound.
     cbn [nud] in H. refold_in H. adv_in H. destruct (peek st 0) eqn:Ep; dead; specialize (Ha ltac:(discriminate)).
     - (* identifier, possibly a call *)
       destruct (peek p 0) eqn:Ep1;
-        try (injection H as <- <-; exists (CIdent s); split; [rewrite Ha; reflexivity|reflexivity]).
-      adv_in H. use_peek. run H args st3 El. injection H as <- <-. apply Hlist in El as (items & Hi & Hl & _).
-      exists (CCall o0 s items). split.
+        try (injection H as <- <-; exists (CIdent s); split; [rewrite Ha; reflexivity|split; [reflexivity|split; [exact I|start_tac Ep]]]).
+      adv_in H. use_peek. run H args st3 El. injection H as <- <-. apply Hlist in El as (items & Hi & Hl & _ & _ & _ & Hwi').
+      exists (CCall o0 s items). split; [|split; [|split]].
       + rewrite flat_call, Ha, Ha0, Hi. destruct items as [|a r]; cbn [glist]; [reflexivity|]. rewrite gtail_paren. listeq.
       + rewrite erase_call, Hl. reflexivity.
+      + apply wf_call. exact Hwi'.
+      + start_tac Ep.
     - (* quoted identifier *)
-      destruct (peek p 0) eqn:Ep1; dead; (injection H as <- <-; exists (CQIdent s); split; [rewrite Ha; reflexivity|reflexivity]).
+      destruct (peek p 0) eqn:Ep1; dead;
+        (injection H as <- <-; exists (CQIdent s); split; [rewrite Ha; reflexivity|split; [reflexivity|split; [exact I|start_tac Ep]]]).
     - (* literal *)
-      injection H as <- <-. exists (CLit v). split; [rewrite Ha; reflexivity|reflexivity].
+      injection H as <- <-. exists (CLit v). split; [rewrite Ha; reflexivity|]. split; [reflexivity|]. split; [exact I|start_tac Ep].
     - (* star *)
-      apply Hwv in H as (k & Hk & Ht). exists (CStarP k). split; [rewrite Ha, Hk; reflexivity|]. now rewrite Ht.
+      apply Hwv in H as (k & Hk & Ht & Hwk). exists (CStarP k). split; [rewrite Ha, Hk; reflexivity|]. split; [now rewrite Ht|]. split; [exact Hwk|start_tac Ep].
     - (* flatten *)
-      apply Hflatten in H as (k & Hk & Ht). exists (CFlattenP k). split; [rewrite Ha, Hk; reflexivity|]. now rewrite Ht.
+      apply Hflatten in H as (k & Hk & Ht & Hwk). exists (CFlattenP k). split; [rewrite Ha, Hk; reflexivity|]. split; [now rewrite Ht|]. split; [exact Hwk|start_tac Ep].
     - (* filter *)
-      apply Hfilter in H as (p0 & k & Hk & Ht). exists (CFilterP p0 k). split; [rewrite Ha, Hk; listeq|]. now rewrite Ht.
+      apply Hfilter in H as (p0 & k & Hk & Ht & Hwp & Hwk). exists (CFilterP p0 k). split; [rewrite Ha, Hk; listeq|]. split; [now rewrite Ht|].
+      split; [cbn [wf]; auto|start_tac Ep].
     - (* bracket *)
-      assert (Hml : parse_multi_list' f p = Ok (t, st') -> exists c, toks st = flat c ++ toks st' /\ erase c = t).
-      { intros Hm. apply Hmlist in Hm as (e & es & Hm & Ht). exists (CMList e es). split; [rewrite flat_mlist, Ha, Hm; listeq|]. now rewrite Ht. }
-      assert (Hix : parse_index' f p = Ok (t, st') -> exists c, toks st = flat c ++ toks st' /\ erase c = t).
-      { intros Hm. apply Hindex in Hm as [(n0 & Hn & Ht)|(off & sl & k & Hs & Ht)].
-        - exists (CIndexP n0). split; [rewrite Ha, Hn; reflexivity|]. now rewrite Ht.
-        - exists (CSliceP off sl k). split; [rewrite Ha, Hs; listeq|]. now rewrite Ht. }
-      destruct (peek p 0) eqn:Ep1; try (exact (Hml H)); try (exact (Hix H)).
-      destruct (tok_is_rbracket (peek p 1)); [|exact (Hml H)].
-      adv_in H. use_peek. apply Hwi in H as (k & Hk & Ht). exists (CWildP k). split; [rewrite Ha, Ha0, Hk; reflexivity|]. now rewrite Ht.
+      assert (Hml : brk_start st = false -> parse_multi_list' f p = Ok (t, st') ->
+                    exists c, toks st = flat c ++ toks st' /\ erase c = t /\ wf c /\ start_ok st c).
+      { intros Hb Hm. apply Hmlist in Hm as (e & es & Hm & Ht & Hwe & Hwes). exists (CMList e es).
+        split; [rewrite flat_mlist, Ha, Hm; listeq|]. split; [now rewrite Ht|]. split; [apply wf_mlist; auto|].
+        unfold start_ok. rewrite Ep, Hb. split; discriminate. }
+      assert (Hix : parse_index' f p = Ok (t, st') -> exists c, toks st = flat c ++ toks st' /\ erase c = t /\ wf c /\ start_ok st c).
+      { intros Hm. apply Hindex in Hm as [(n0 & Hn & Ht)|(off & sl & k & Hs & Ht & Hwk)].
+        - exists (CIndexP n0). split; [rewrite Ha, Hn; reflexivity|]. split; [now rewrite Ht|]. split; [exact I|]. unfold start_ok. rewrite Ep. split; [discriminate|reflexivity].
+        - exists (CSliceP off sl k). split; [rewrite Ha, Hs; listeq|]. split; [now rewrite Ht|]. split; [exact Hwk|]. unfold start_ok. rewrite Ep. split; [discriminate|reflexivity]. }
+      assert (Hb1 : brk_start st = match peek p 0 with TNumber _ | TColon => true | TStar => tok_is_rbracket (peek p 1) | _ => false end).
+      { unfold brk_start. rewrite Ep, <- !Hc by discriminate. reflexivity. }
+      destruct (peek p 0) eqn:Ep1; try (exact (Hix H)); try (exact (Hml Hb1 H)).
+      destruct (tok_is_rbracket (peek p 1)) eqn:Er1; [|exact (Hml Hb1 H)].
+      adv_in H. use_peek. apply Hwi in H as (k & Hk & Ht & Hwk). exists (CWildP k). split; [rewrite Ha, Ha0, Hk; reflexivity|]. split; [now rewrite Ht|].
+      split; [exact Hwk|]. unfold start_ok. rewrite Ep. split; [discriminate|reflexivity].
     - (* not *)
-      run H n st2 Ee. apply Hexpr in Ee as (x & Hx & Hex). injection H as <- <-. exists (CNot x). split; [rewrite Ha, Hx; reflexivity|]. cbn [erase]. now rewrite Hex.
+      run H n st2 Ee. apply Hexpr in Ee as (x & Hx & Hex & Hwx & _). injection H as <- <-. exists (CNot x). split; [rewrite Ha, Hx; reflexivity|].
+      split; [cbn [erase]; now rewrite Hex|]. split; [exact Hwx|start_tac Ep].
     - (* current node *)
-      injection H as <- <-. exists CCurrent. split; [rewrite Ha; reflexivity|reflexivity].
+      injection H as <- <-. exists CCurrent. split; [rewrite Ha; reflexivity|]. split; [reflexivity|]. split; [exact I|start_tac Ep].
     - (* parentheses *)
-      run H result st2 Ee. apply Hexpr in Ee as (x & Hx & Hex). adv_in H. destruct (peek st2 0) eqn:Ep2; dead. use_peek.
-      injection H as <- <-. exists (CParen x). split; [rewrite Ha, Hx, Ha0; cbn [flat]; listeq|exact Hex].
+      run H result st2 Ee. apply Hexpr in Ee as (x & Hx & Hex & Hwx & _). adv_in H. destruct (peek st2 0) eqn:Ep2; dead. use_peek.
+      injection H as <- <-. exists (CParen x). split; [rewrite Ha, Hx, Ha0; cbn [flat]; listeq|]. split; [exact Hex|]. split; [exact Hwx|start_tac Ep].
     - (* multi-select hash *)
-      apply Hkvps in H as (items & Hne & Hi & Ht). destruct items as [|[[q k] x] r]; [contradiction|].
-      exists (CMHash (q, k, x) r). split; [rewrite flat_mhash, Ha, Hi; cbn [hash_items]; listeq|]. rewrite erase_mhash, Ht. reflexivity.
+      apply Hkvps in H as (items & Hne & Hi & Ht & Hwi'). destruct items as [|[[q k] x] r]; [contradiction|].
+      exists (CMHash (q, k, x) r). split; [rewrite flat_mhash, Ha, Hi; cbn [hash_items]; listeq|]. split; [rewrite erase_mhash, Ht; reflexivity|].
+      split; [apply wf_mhash; split; [exact (Forall_inv Hwi')|exact (Forall_inv_tail Hwi')]|start_tac Ep].
   Qed.
 
   Lemma all_sound_holds : forall f, all_sound f.
@@ -444,17 +502,17 @@ Section Sound.
       + exact (sound_list f IH).
   Qed.
 
-  (** Whatever the reference parser accepts is the flattening of a syntax tree
-      of the grammar followed by the unconsumed rest (which starts with the end
-      of input), and the tree it returns is the abstract tree of that syntax tree. *)
+  (** Whatever the reference parser accepts is the flattening of a well-formed
+      syntax tree of the grammar followed by the unconsumed rest (which starts with
+      the end of input), and the tree it returns is the abstract tree of that syntax tree. *)
   Theorem ref_parser_sound fuel tokens t :
     parse_tokens L STOP true fuel tokens = Ok t ->
-    exists c rest, map snd tokens = flat c ++ rest /\ erase c = t /\ hd TEof rest = TEof.
+    exists c rest, map snd tokens = flat c ++ rest /\ erase c = t /\ wf c /\ hd TEof rest = TEof.
   Proof.
     unfold parse_tokens. destruct (expr' fuel 0 (mkPst tokens 0)) as [[r st]|?| | |] eqn:E; cbn [bind]; dead.
     destruct (peek st 0) eqn:Ep; dead. intros H. injection H as <-.
-    destruct (all_sound_holds fuel) as (Hexpr & _). apply Hexpr in E as (c & Hc & Hec).
-    exists c, (toks st). split; [exact Hc|]. split; [exact Hec|].
+    destruct (all_sound_holds fuel) as (Hexpr & _). apply Hexpr in E as (c & Hc & Hec & Hwc & _).
+    exists c, (toks st). split; [exact Hc|]. split; [exact Hec|]. split; [exact Hwc|].
     unfold peek, toks in *. destruct (pq st) as [|[p0 t0] q]; cbn in *; [reflexivity|exact Ep].
   Qed.
 End Sound.
@@ -549,12 +607,12 @@ Qed.
     by the end-of-input token, and the returned tree is that syntax tree's
     abstract tree (offsets included, as annotations). *)
 Theorem ref_parse_sound s t : ref_parse s = Ok t ->
-  exists tokens c, tokenize s = Ok tokens /\ map snd tokens = flat c ++ [TEof] /\ erase c = t.
+  exists tokens c, tokenize s = Ok tokens /\ map snd tokens = flat c ++ [TEof] /\ erase c = t /\ wf c.
 Proof.
   unfold ref_parse. destruct (tokenize s) as [tokens|?| | |] eqn:Et; cbn [bind]; try discriminate. intros H.
-  apply ref_parser_sound in H as (c & rest & Hc & Hec & Hhd).
+  apply ref_parser_sound in H as (c & rest & Hc & Hec & Hwc & Hhd).
   apply tokenize_ends in Et as Hends. destruct Hends as (body & p & Hr & Hb).
-  exists tokens, c. split; [reflexivity|]. split; [|exact Hec].
+  exists tokens, c. split; [reflexivity|]. split; [|split; [exact Hec|exact Hwc]].
   assert (Hbody : ~ In TEof (map snd body)).
   { intros Hin. apply in_map_iff in Hin as ([p0 t0] & E & Hin). rewrite Forall_forall in Hb. apply (Hb _ Hin). exact E. }
   rewrite Hr, map_app in Hc. cbn [map snd] in Hc.
